@@ -44,6 +44,9 @@ CHECKS = {
  "C14": ("Exhaustive exploration of spelling variants: for every AST of a pool (rich hand-built ASTs touching every token class, all BFS programs of size <= 2 in thorough / a subset in quick, a subset of size 3) every token class of the printer alone (29 classes: keyword case per keyword, not/NOT/!, or/OR/|OR|, =/:=, quotes, .n/[n], leading this., indentation, blank lines, trailing spaces, CRLF, line breaks after or / inside lists / inside filters, end-of-line comments, comment lines, operator-level negation spelling), a comment at every inter-token slot, and every pair of classes; parse-tree --print-json with locations removed must equal the canonical spelling's, a rejected spelling is a violation, verdicts must agree on documents; type blocks are compared with their documented desugaring and bare clauses with an explicit default rule by verdict.",
          "Trusted base: the harness printer (emits only documented synonyms), the location-stripping normaliser (a leading This before a key is the only normalised difference).",
          "exhaustive enumeration of spelling/layout variants (deviation 1 and 2) per AST, parse-tree and verdict equality"),
+ "C11": ("Exhaustive exploration of (typed document, serialisation layout, loader) states: documents of depth <= 2 over a scalar alphabet (keyword-looking / numeric-looking / unicode / quoted strings, boundary ints, floats, bools, null) in maps (both key orders), lists and nestings x 13 layouts (JSON compact / pretty, flow YAML and block YAML indent 2 / 4 in plain-where-safe, single and double quoting, quoted keys) x the three loaders (validate, test, run_checks); per state a literal-equality rule, one type probe per node and the value dumped by a deliberately failing root clause are compared with the source document; plus the complete table of 21 intrinsic tags x {scalar, sequence, nested tag} payload x {map value, list element, top level} x loader against the long form, and a rejection set (non-string keys, truncated, unterminated, empty, comment-only, tab-indented input).",
+         "Trusted base: the harness YAML / JSON writers (strings that a YAML 1.1 / 1.2 / FromStr reader could type otherwise are always quoted), the report reader. Anchors / aliases, multi-line scalars and empty plain scalars are outside the property's stated serialisations.",
+         "exhaustive enumeration of documents x serialisations x loaders with literal-equality, type-probe and value-dump oracles; exhaustive tag table"),
 }
 PENDING_REASON = "check under construction in this round (design in DESIGN.md section 5); not claimed until its quick tier runs clean on the unchanged tree"
 ALL = ["C%02d" % i for i in range(1, 20)]
